@@ -1,3 +1,149 @@
-From ZV Require Import Lib.Base Model.MergeDriver.
-Theorem C35_placeholder : True. Proof. exact I. Qed.
-Print Assumptions C35_placeholder.
+(** C35 — shard merging reports success only when it merged, and never duplicates.
+    Statements only; proofs are in Proofs/MergeDriver{Facts,Merge,Explode}.v over Model/MergeDriver.v.
+
+    Reading guide.  [run_merge plan s0 names] / [run_explode plan shuf_rename shuf_cleanup s0 c] run the model
+    of `zoekt-merge-index merge names...` / `index.Explode(dir, c)` from the directory state [s0] where
+    [plan o k = true] makes the k-th execution of operation [o] fail (ANY set of failing operations: open,
+    mkdir, create-temp, write, rename, remove), on top of the failures the state itself causes (missing file,
+    directory in the way).  [crash_states w] is the state before every operation plus the final state, i.e.
+    everything a kill at any point can leave behind.  [no_dup s]: no repository is alive (non-tombstoned, in a
+    loadable *.zoekt file, sidecar .meta applied) in two shards.  *.tmp names are never visible. *)
+From ZV Require Import Lib.Base Model.MergeDriver Proofs.MergeDriverFacts Proofs.MergeDriverMerge Proofs.MergeDriverExplode.
+From Coq Require Import Permutation.
+
+(** hypothesis "no stale sidecar at the destination": see NOTES.md (a leftover <dst>.meta would be adopted by
+    the new shard — parseMetadata prefers the sidecar — and is outside the programs' control) *)
+Definition merge_dst_clean (s0 : fs) (names : list zname) : Prop :=
+  forall d, merge_dst s0 names = Some d -> s0 (PMeta d) = None \/ In d names.
+Definition explode_dst_clean (s0 : fs) (c : zname) : Prop :=
+  forall rs r, eff s0 c = Some rs -> In r (alive rs) -> s0 (PMeta (ZSimple (rm_id r))) = None \/ ZSimple (rm_id r) = c.
+
+Theorem C35_merge_no_duplicate_visibility :
+  forall (plan : op -> nat -> bool) (s0 : fs) (names : list zname),
+    no_dup s0 -> merge_dst_clean s0 names ->
+    forall r w, run_merge plan s0 names = (r, w) -> Forall no_dup (crash_states w).
+Proof.
+  intros plan s0 names Hnd Hm r w E.
+  exact (proj2 (hoare_run _ _ _ _ s0 r w (merge_spec plan s0 Hnd names Hm) eq_refl Hnd E)).
+Qed.
+Print Assumptions C35_merge_no_duplicate_visibility.
+
+(** a nil error means: a path was returned, it is the compound shard of the inputs, every repository alive
+    in an input is alive in it, and every input shard (other than a same-named one it replaced) is gone *)
+Theorem C35_merge_success_truthful :
+  forall (plan : op -> nat -> bool) (s0 : fs) (names : list zname),
+    no_dup s0 -> merge_dst_clean s0 names ->
+    forall x w, run_merge plan s0 names = (ROk x, w) ->
+    exists d, x = Some d /\ merge_dst s0 names = Some d /\
+              (forall z r, In z names -> In r (vis s0 z) -> In r (vis (w_fs w) d)) /\
+              (forall z, In z names -> z <> d -> w_fs w (PZ z) = None).
+Proof.
+  intros plan s0 names Hnd Hm x w E.
+  destruct (hoare_run _ _ _ _ s0 _ w (merge_spec plan s0 Hnd names Hm) eq_refl Hnd E) as [HQ _].
+  simpl in HQ. destruct x as [d|]; [|destruct HQ].
+  destruct HQ as [shards [Hp [Hd [He Hg]]]]. exists d. split; auto. split.
+  { unfold merge_dst. rewrite Hp. subst d. reflexivity. }
+  split; auto. intros z r Hz Hr.
+  destruct (parse_all_in' _ _ _ Hp z Hz) as [rs [H1 H2]].
+  unfold vis in *. rewrite He. rewrite H1 in Hr. apply live_merged. exists rs; auto.
+Qed.
+Print Assumptions C35_merge_success_truthful.
+
+Theorem C35_explode_no_duplicate_visibility :
+  forall (plan : op -> nat -> bool) (shuf_rename shuf_cleanup : shuffle),
+    (forall l, Permutation (shuf_rename l) l) ->
+    forall (s0 : fs) (c : zname), no_dup s0 -> explode_dst_clean s0 c ->
+    forall r w, run_explode plan shuf_rename shuf_cleanup s0 c = (r, w) -> Forall no_dup (crash_states w).
+Proof.
+  intros plan sr sc Hperm s0 c Hnd Hm r w E.
+  destruct (eff s0 c) as [rs|] eqn:He.
+  - exact (proj2 (hoare_run _ _ _ _ s0 r w (explode_spec plan sr sc Hperm s0 Hnd c rs He (fun r0 => Hm rs r0 He)) eq_refl Hnd E)).
+  - exact (proj2 (hoare_run _ _ _ _ s0 r w (explode_spec_none plan sr sc s0 c Hnd He) eq_refl Hnd E)).
+Qed.
+Print Assumptions C35_explode_no_duplicate_visibility.
+
+(** a nil error means: every repository that was alive in the compound shard is now alive in its own simple
+    shard, and the compound shard is gone (unless it carried a simple shard's name and was replaced) *)
+Theorem C35_explode_success_truthful :
+  forall (plan : op -> nat -> bool) (shuf_rename shuf_cleanup : shuffle),
+    (forall l, Permutation (shuf_rename l) l) ->
+    forall (s0 : fs) (c : zname), no_dup s0 -> explode_dst_clean s0 c ->
+    forall x w, run_explode plan shuf_rename shuf_cleanup s0 c = (ROk x, w) ->
+    (forall r, In r (vis s0 c) -> vis (w_fs w) (ZSimple r) = [r]) /\
+    ((forall r, c <> ZSimple r) -> w_fs w (PZ c) = None).
+Proof.
+  intros plan sr sc Hperm s0 c Hnd Hm x w E.
+  destruct (eff s0 c) as [rs|] eqn:He.
+  - exact (proj1 (hoare_run _ _ _ _ s0 _ w (explode_spec plan sr sc Hperm s0 Hnd c rs He (fun r0 => Hm rs r0 He)) eq_refl Hnd E)).
+  - destruct (hoare_run _ _ _ _ s0 _ w (explode_spec_none plan sr sc s0 c Hnd He) eq_refl Hnd E) as [HQ _]. discriminate.
+Qed.
+Print Assumptions C35_explode_success_truthful.
+
+(** ---- non-vacuity: a concrete directory satisfying the hypotheses, on which the programs succeed, fail, and
+    are interrupted *)
+Definition ex_rm (i p : N) (t : bool) : rmeta := {| rm_id := i; rm_prio := p; rm_tomb := t |}.
+Definition ex_files : list (path * node) :=
+  [ (PZ (ZSimple 1), File (CShard [ex_rm 1 10 false]));
+    (PZ (ZSimple 2), File (CShard [ex_rm 2 20 false]));
+    (PZ (ZCompound [4; 3]), File (CShard [ex_rm 4 40 false; ex_rm 3 30 false]));
+    (PMeta (ZCompound [4; 3]), File (CMeta [ex_rm 4 40 true; ex_rm 3 30 false])) ]%N.
+Definition ex_s0 : fs := mkfs ex_files.
+
+Lemma mkfs_vis_in : forall l z r, In r (vis (mkfs l) z) -> exists n, In (PZ z, n) l.
+Proof.
+  intros l z r H. unfold vis, eff, mkfs in H.
+  destruct (find (fun e => if path_eq_dec (fst e) (PZ z) then true else false) l) as [e|] eqn:E; [|destruct H].
+  apply find_some in E. destruct E as [E1 E2].
+  destruct (path_eq_dec (fst e) (PZ z)) as [E3|]; [|discriminate].
+  exists (snd e). rewrite <- E3. destruct e; auto.
+Qed.
+Lemma ex_vis : forall z r, In r (vis ex_s0 z) ->
+  (z = ZSimple 1 /\ r = 1 \/ z = ZSimple 2 /\ r = 2 \/ z = ZCompound [4;3] /\ r = 3)%N.
+Proof.
+  intros z r H. destruct (mkfs_vis_in _ _ _ H) as [n Hn]. simpl in Hn.
+  destruct Hn as [E|[E|[E|[E|[]]]]]; inversion E; subst; vm_compute in H;
+    destruct H as [<-|[]]; auto.
+Qed.
+Example ex_no_dup : no_dup ex_s0.
+Proof.
+  intros z1 z2 r H1 H2. apply ex_vis in H1. apply ex_vis in H2.
+  destruct H1 as [[-> ->]|[[-> ->]|[-> ->]]]; destruct H2 as [[-> E]|[[-> E]|[-> E]]]; auto; discriminate.
+Qed.
+Definition ex_names := [ZSimple 1; ZCompound [4; 3]; ZSimple 2]%N.
+Definition no_faults : op -> nat -> bool := fun _ _ => false.
+Example ex_merge_dst : merge_dst ex_s0 ex_names = Some (ZCompound [3; 2; 1]%N).
+Proof. vm_compute. reflexivity. Qed.
+Example ex_merge_clean : merge_dst_clean ex_s0 ex_names.
+Proof. intros d H. rewrite ex_merge_dst in H. inversion H; subst. left. reflexivity. Qed.
+(** success: returns the compound of the three live repos (the tombstoned r4 is dropped) *)
+Example ex_merge_ok : fst (run_merge no_faults ex_s0 ex_names) = ROk (Some (ZCompound [3; 2; 1]%N)).
+Proof. vm_compute. reflexivity. Qed.
+Example ex_merge_ok_vis :
+  vis (w_fs (snd (run_merge no_faults ex_s0 ex_names))) (ZCompound [3; 2; 1]%N) = [3; 2; 1]%N /\
+  length (crash_states (snd (run_merge no_faults ex_s0 ex_names))) = 13.
+Proof. vm_compute. auto. Qed.
+(** a failing removal of the second input: error, compound stays invisible, the first input is already gone *)
+Definition ex_fault : op -> nat -> bool :=
+  fun o k => (if op_eq_dec o (ORemove (PZ (ZCompound [4; 3]%N))) then true else false) && Nat.eqb k 0.
+Example ex_merge_fault :
+  let rw := run_merge ex_fault ex_s0 ex_names in
+  fst rw = RErr /\ vis (w_fs (snd rw)) (ZCompound [3; 2; 1]%N) = [] /\ w_fs (snd rw) (PZ (ZSimple 1%N)) = None /\
+  vis (w_fs (snd rw)) (ZCompound [4; 3]%N) = [3%N].
+Proof. vm_compute. auto. Qed.
+(** explode of the compound with one tombstoned repo, no faults: r3 back in its own shard, r4 dropped *)
+Example ex_explode_clean : explode_dst_clean ex_s0 (ZCompound [4; 3]%N).
+Proof.
+  intros rs r H Hr. left. vm_compute in H. inversion H; subst rs. clear H.
+  vm_compute in Hr. destruct Hr as [<-|[]]. reflexivity.
+Qed.
+Example ex_explode_ok :
+  let rw := run_explode no_faults (fun l => l) (fun l => rev l) ex_s0 (ZCompound [4; 3]%N) in
+  fst rw = ROk None /\ vis (w_fs (snd rw)) (ZSimple 3%N) = [3%N] /\ w_fs (snd rw) (PZ (ZCompound [4; 3]%N)) = None /\
+  w_fs (snd rw) (PMeta (ZCompound [4; 3]%N)) = None.
+Proof. vm_compute. auto. Qed.
+(** a directory squats on r3's shard name: the rename fails naturally; Explode now reports it *)
+Definition ex_s1 : fs := upd (upd ex_s0 (PZ (ZSimple 1%N)) None) (PZ (ZSimple 3%N)) (Some Dir).
+Example ex_explode_rename_fails :
+  let rw := run_explode no_faults (fun l => l) (fun l => l) ex_s1 (ZCompound [4; 3]%N) in
+  fst rw = RErr /\ vis (w_fs (snd rw)) (ZSimple 3%N) = [].
+Proof. vm_compute. auto. Qed.
